@@ -56,6 +56,9 @@ func H_C19_ws_write() {
 	}
 	ws := NewGoatOverWebsocket(nil)
 	msg := &Rpc{Id: vfUint64("id"), Header: &RpcHeader{Source: "a"}}
+	if vfParam("zero", 0) == 1 {
+		msg = &Rpc{} // the envelope with every field absent: its encoding is empty, it is still an envelope
+	}
 	err := ws.Write(context.Background(), msg)
 	if fail == 1 {
 		vfAssert(err != nil, "write-error-reported")
@@ -64,7 +67,10 @@ func H_C19_ws_write() {
 	vfAssert(err == nil, "write-ok")
 	vfAssert(len(env.WsWrites) == 1 && env.WsWriteType[0] == websocket.MessageBinary, "exactly-one-binary-message")
 	var back Rpc
-	vfAssert(proto.Unmarshal(env.WsWrites[0], &back) == nil && back.Id == msg.Id && back.Header.Source == "a", "bytes-are-the-encoding-of-the-envelope")
+	if len(env.WsWrites) != 1 {
+		return
+	}
+	vfAssert(proto.Unmarshal(env.WsWrites[0], &back) == nil && back.Id == msg.Id && (back.Header == nil) == (msg.Header == nil) && (msg.Header == nil || back.Header.Source == "a"), "bytes-are-the-encoding-of-the-envelope")
 	vfReach("checked")
 }
 
